@@ -113,7 +113,7 @@ func C03(r *drv.Run) {
 	if !quick(r) {
 		n, ntext = 200000, 12
 	}
-	r.Rule = "programs from the union of all generators (core language, regex literals, named loops, whole line/word/file, every amount clause, replace commands) x multi-line inputs derived from the program (newline-heavy alphabet, \\r\\n, some non-ASCII). Oracle: invariants recomputed from the input text alone on every reported match: bounds, Value == text[Start:End], order/non-overlap, consecutive MatchNumber (first number fixed by the amount clause), 1-based Line and byte Column of both ends from a newline index (columns: ASCII texts only), every string variable - recursively through named-loop maps - a substring of Value. Non-trivial = run returned >= 1 match; distinct by (program, text)."
+	r.Rule = "programs from the union of all generators (core language, regex literals, named loops, whole line/word/file, every amount clause, replace commands) x multi-line inputs derived from the program (newline-heavy alphabet, \\r\\n, some non-ASCII). Plus the exhaustive capture shapes of C02 (first alternatives that fail, abandoned iterations, named loops over inner loops) on all texts over {a,b} up to length 4; plus linear-time programs over long inputs (thousands of short lines, single lines of 6 000 and 70 000 bytes, CR LF line ends, matches spanning newlines; offsets beyond 65 536, line numbers beyond 2 000, columns beyond 5 000). Oracle: invariants recomputed from the input text alone on every reported match: bounds, Value == text[Start:End], order/non-overlap, consecutive MatchNumber (first number fixed by the amount clause), 1-based Line and byte Column of both ends from a newline index (columns: ASCII texts only), every string variable - recursively through named-loop maps - a substring of Value. Non-trivial = run returned >= 1 match; distinct by (program, text)."
 	r.Assumptions = []string{
 		"single-command programs (results of several commands are concatenated; C13 covers that)",
 		"column claim checked on ASCII texts only, as the property says",
@@ -195,7 +195,48 @@ func C03(r *drv.Run) {
 			r.Sample(map[string]any{"program": src, "text": string(texts[len(texts)-1])})
 		}}
 	})
+	c03Long(r)
+	// the exhaustive capture shapes of C02 (captures in first alternatives that fail, in abandoned iterations, inside
+	// named loops under inner loops) under C03's invariants: a binding that survives backtracking is often text
+	// that is no part of the final match
+	shapes := enumCaptureShapes()
+	shapeTexts := allTexts("ab", 4)
+	r.Exec(len(shapes), drv.ExecOpts{Batch: 100}, func(i int) *drv.Item {
+		if quick(r) && (uint64(i)+r.Seed)%2 != 0 {
+			return nil
+		}
+		p := shapes[i]
+		src := gen.RenderProgram(p)
+		c := wire.Case{Op: "run", Src: []byte(src), Texts: shapeTexts, StepBudget: 150000}
+		return &drv.Item{Case: c, Check: func(res *wire.Result) {
+			if crashOrGuard(r, res, &c, src, false) || compileTrouble(r, res, &c, src, false) {
+				return
+			}
+			for ti, text := range shapeTexts {
+				if ti >= len(res.Runs) {
+					break
+				}
+				run := &res.Runs[ti]
+				r.Eval(1)
+				if runTrouble(r, run, &c, src, text, false) {
+					continue
+				}
+				kind, msg := matchInvariants(text, run.Matches, p.Commands[0].Amount, true)
+				if kind != "" {
+					r.Violate(&drv.Violation{Sig: "shape:" + kind, Src: src, Text: string(text), Case: &c, Detail: map[string]any{"what": msg, "observed": fmtGot(run.Matches)}})
+					continue
+				}
+				if len(run.Matches) > 0 {
+					r.Nontrivial(src + "\x00" + string(text))
+					r.Count("capture_shape_runs_verified", 1)
+				}
+			}
+		}}
+	})
 	if r.NViolations() == 0 {
+		if r.MaxOf("largest_line_number") < 2000 || r.MaxOf("largest_column_number") < 5000 || r.MaxOf("largest_offset") < 60000 {
+			r.Inconclusive("coverage floor: the long-input family did not reach line 2000 / column 5000 / offset 60000")
+		}
 		expensiveFloor(r)
 		for _, k := range []string{"matches_spanning_newline", "matches_starting_after_line_1", "string_variables_checked", "matches_with_nested_variable_maps", "replace_matches", "amount_clause_runs_with_matches"} {
 			if r.Counter(k) == 0 {
@@ -203,4 +244,82 @@ func C03(r *drv.Run) {
 			}
 		}
 	}
+}
+
+// c03Long: the same invariants where the counters are large: offsets beyond any buffer size, thousands of lines,
+// columns in the thousands.
+func c03Long(r *drv.Run) {
+	progs := []struct {
+		src string
+		am  gen.Amount
+	}{
+		{"find all at least 1 digit", gen.Amount{Kind: "all"}},
+		{"find all 'ab'", gen.Amount{Kind: "all"}},
+		{"find all line start letter", gen.Amount{Kind: "all"}},
+		{"find all letter line end", gen.Amount{Kind: "all"}},
+		{"replace all digit with 'D'", gen.Amount{Kind: "all"}},
+		{"find all @/[a-c]+\\n[a-c]+/", gen.Amount{Kind: "all"}},
+		{"find all 'b' whitespace 'a'", gen.Amount{Kind: "all"}},
+		{"find skip 700 take 40 in 'a' to 'c'", gen.Amount{Kind: "skiptake", Skip: 700, Take: 40}},
+		{"find last 25 at least 1 letter", gen.Amount{Kind: "last", Last: 25}},
+		{"find all (letter = first) at most 3 letter", gen.Amount{Kind: "all"}},
+	}
+	var texts [][]byte
+	mk := func(seed int, lines int, minLen, maxLen int, eol string) []byte {
+		rng := gen.Derive(r.Seed, "C03long", seed)
+		alpha := []byte("abc ab12 b a")
+		var b []byte
+		for l := 0; l < lines; l++ {
+			n := minLen
+			if maxLen > minLen {
+				n += rng.Intn(maxLen - minLen + 1)
+			}
+			for k := 0; k < n; k++ {
+				b = append(b, alpha[rng.Intn(len(alpha))])
+			}
+			if l < lines-1 || rng.Bool() {
+				b = append(b, eol...)
+			}
+		}
+		return b
+	}
+	texts = append(texts, mk(0, 3000, 0, 12, "\n"), mk(1, 2500, 3, 30, "\r\n"), mk(2, 1, 6000, 6000, "\n"), mk(3, 3, 70000, 70000, "\n"), mk(4, 40, 1000, 4200, "\n"), mk(5, 5000, 0, 1, "\n"))
+	r.Exec(len(progs), drv.ExecOpts{Batch: 1}, func(i int) *drv.Item {
+		pr := progs[i]
+		c := wire.Case{Op: "run", Src: []byte(pr.src), Texts: texts, StepBudget: 100_000_000}
+		return &drv.Item{Case: c, Check: func(res *wire.Result) {
+			if crashOrGuard(r, res, &c, pr.src, false) {
+				return
+			}
+			if compileTrouble(r, res, &c, pr.src, false) {
+				return
+			}
+			for ti, text := range texts {
+				if ti >= len(res.Runs) {
+					break
+				}
+				run := &res.Runs[ti]
+				r.Eval(1)
+				if runTrouble(r, run, &c, pr.src, text[:min(len(text), 80)], false) {
+					continue
+				}
+				kind, msg := matchInvariants(text, run.Matches, pr.am, true)
+				if kind != "" {
+					r.Violate(&drv.Violation{Sig: "long:" + kind, Src: pr.src, Text: fmt.Sprintf("(%d bytes)", len(text)), Case: &c, Detail: map[string]any{"what": msg, "text_index": ti, "matches": len(run.Matches)}})
+					continue
+				}
+				r.Count("long_input_runs_verified", 1)
+				if len(run.Matches) > 0 {
+					r.Nontrivial(fmt.Sprintf("long|%s|%d", pr.src, ti))
+					r.Count("matches_checked", len(run.Matches))
+					last := run.Matches[len(run.Matches)-1]
+					r.Max("largest_line_number", last.L2)
+					r.Max("largest_offset", last.E)
+					for _, m := range run.Matches {
+						r.Max("largest_column_number", m.C2)
+					}
+				}
+			}
+		}}
+	})
 }
